@@ -219,6 +219,68 @@ func c10Scenario(c *choice.Ctx, rep *report.R, alpha []c10Rule, maxLen int, sub 
 	rep.State(obs)
 }
 
+// c10SetFiles: one domain set spread over several files - a domain in one file, one of its subdomains in another, in both
+// orders, either of them padded with 20000 other entries (so that either file may be the one whose loading ends last, should
+// files ever be loaded side by side) - is the union of its files: the domain, its subdomain and everything below both match.
+func c10SetFiles(rep *report.R) {
+	var filler strings.Builder
+	for i := 0; i < 20000; i++ {
+		fmt.Fprintf(&filler, "f%05d.filler.test\n", i)
+	}
+	for li, layout := range [][2]string{
+		{"example.test\n", "www.example.test\n" + filler.String()},
+		{"example.test\n" + filler.String(), "www.example.test\n"},
+		{"www.example.test\n" + filler.String(), "example.test\n"},
+		{"www.example.test\n", "example.test\n" + filler.String()},
+		{"www.example.test\nexample.test\n", "mail.example.test\nfull:other.test\n"},
+	} {
+		desc := fmt.Sprintf("set M = files {%.20q..., %.20q...} (%d and %d octets)", layout[0], layout[1], len(layout[0]), len(layout[1]))
+		rep.Eval("set-files: " + desc)
+		fail := func(sig, msg string) {
+			rep.Violate("C10:set-files:"+sig, msg+"\n  "+desc, map[string]any{"Choices": []int{}, "SetFiles": li})
+		}
+		cfg := &Config{
+			DomainSets: []DomainSetConfig{{Tag: "M", Files: []string{vTmpFile(fmt.Sprintf("c10_M%da.txt", li), layout[0]), vTmpFile(fmt.Sprintf("c10_M%db.txt", li), layout[1])}}},
+			Rules:      []RuleConfig{{Domain: "M", Forward: "u1"}, {Reject: 5}},
+		}
+		v, err := vNewRouter(cfg, "u1")
+		if err != nil {
+			fail("router-start", err.Error())
+			continue
+		}
+		serial := byte(0)
+		v.ups["u1"].Auto = func(q *upQuery) *upResult {
+			if q.Msg == nil {
+				return &upResult{err: errScripted}
+			}
+			serial++
+			return &upResult{wire: env.Answer(q.Msg, serial, 300).Encode(false)}
+		}
+		sc := v.tcpClient(v.newTCPServer(0, 300*time.Second), vClientV4, vLocalV4)
+		n := 0
+		for _, q := range []struct {
+			name []string
+			in   bool
+		}{{[]string{"example", "test"}, true}, {[]string{"mail", "example", "test"}, true}, {[]string{"www", "example", "test"}, true}, {[]string{"deep", "www", "example", "test"}, true},
+			{[]string{"f00007", "filler", "test"}, li < 4}, {[]string{"xexample", "test"}, false}, {[]string{"test"}, false}, {[]string{"other", "test"}, li == 4}, {[]string{"sub", "other", "test"}, false}} {
+			sc.SendMsg(refdns.Query(uint16(0x1100+n), refdns.N(q.name...), 1, 1))
+			wait()
+			rs := sc.Responses()
+			if len(rs) != n+1 || rs[n] == nil {
+				fail("response-count", fmt.Sprintf("query %v", q.name))
+				break
+			}
+			if want := map[bool]int{true: 0, false: 5}[q.in]; rs[n].RCode() != want {
+				fail("wrong-outcome", fmt.Sprintf("query %s: rcode %s, the union of the files says %s", strings.Join(q.name, "."), rcodeName(rs[n].RCode()), rcodeName(want)))
+			}
+			n++
+		}
+		sc.Close()
+		v.Close()
+		wait()
+	}
+}
+
 func TestVerifC10(t *testing.T) {
 	rep := report.New("C10 first-match rules")
 	defer rep.Write()
@@ -240,5 +302,8 @@ func TestVerifC10(t *testing.T) {
 		maxLen, len(alpha), len(sub))
 	st := runExplore(t, rep, -1, func(c *choice.Ctx) { c10Scenario(c, rep, alpha, maxLen, sub) })
 	rep.Count("executions", st.Executions)
+	if sh, _ := report.Shard(); sh == 0 && report.ReplayFile() == nil {
+		bubble(t, func() { hmu.Lock(); defer hmu.Unlock(); c10SetFiles(rep) })
+	}
 	rep.Sample(map[string]any{"rules": "[{dom=A rev=true rej=0 fwd=u1} {dom= rev=false rej=3 fwd=u2}]", "query": "www.Shared.TEST TXT/CH", "reference": "rule 0 does not apply (name in A, reversed) -> rule 1 rejects with NXDOMAIN, no upstream contacted"})
 }
